@@ -28,9 +28,9 @@ type Op struct {
 	Blocks  int    `json:"blocks,omitempty"`
 	Pattern string `json:"pattern,omitempty"` // random | zero | plus | minus | same | onediff | aliased | overlap
 	Seed    uint64 `json:"seed,omitempty"`
-	Bad     string `json:"bad,omitempty"` // empty | toomany | length
-	Dst     string `json:"dst,omitempty"` // squeeze: what the caller puts into dst - "" (nil entries) | carved | reuse
-	M       int    `json:"m,omitempty"`   // reset: batch size of the next history of this handle
+	Bad     string `json:"bad,omitempty"`   // empty | toomany | length
+	Dst     string `json:"dst,omitempty"`   // squeeze: what the caller puts into dst - "" (nil entries) | carved | reuse
+	M       int    `json:"m,omitempty"`     // reset: batch size of the next history of this handle
 	Lanes   int    `json:"lanes,omitempty"` // squeeze: > 0: only the first 1 + (Lanes-1) mod m lanes are asked for
 }
 
@@ -111,7 +111,7 @@ const inboxCap = 1024
 // ack is what an actor tells the root after an operation — by value, through a channel, inside a hidden region.
 type ack struct {
 	violated bool
-	stop     bool // the history ends here without a verdict (a call outside the contract panicked, as it may)
+	stop     bool       // the history ends here without a verdict (a call outside the contract panicked, as it may)
 	inbox    chan opMsg // non-nil: a clone was created and its actor started
 	state    *handle    // not dereferenced by the root before the actor has exited
 }
@@ -568,9 +568,23 @@ func (hd *handle) step(msg opMsg) (clone *handle) {
 			hd.prevDst, hd.prevKept, hd.prevOp = hd.lastDst, hd.kept, hd.keptOp // the caller keeps the earlier output
 		}
 		hd.lastDst, hd.kept = dst, nil
+		fresh := k > 0 && dst[0] == nil // the implementation provides the memory of the output
 		if err := hd.real.Squeeze(dst, n); err != nil {
 			hd.violate("wrong-error", fmt.Sprintf("%s: valid Squeeze of %d lanes x %d trits returned %q", where(), k, n, err))
 			return
+		}
+		if fresh {
+			// slices the call made are the caller's to append to: what lies behind a lane's length, up to its capacity,
+			// is nobody else's memory. The caller writes there before it looks at any lane.
+			for j := range dst {
+				sp := dst[j][len(dst[j]):cap(dst[j])]
+				for t := range sp {
+					sp[t] = int8((t+2*j)%3) - 1
+				}
+				if len(sp) > 0 {
+					hd.probes["squeeze_output_with_spare_capacity_written"] = 1
+				}
+			}
 		}
 		for j := 0; j < hd.m; j++ {
 			want := hd.lanes[j].Squeeze(n)
